@@ -417,3 +417,11 @@ EQUIVS = [
     E("c19-eq-acquire-try-finally", DB, "        async with self.query_slot:\n            async with self.db.connect() as conn:\n                result = await conn.execute(\n                    sa.select(self.EventTable).where(\n                        self.EventTable.c.id == bytes.fromhex(event_id)\n                    )\n                )\n                row = result.first()\n",
       "        await self.query_slot.acquire()\n        try:\n            async with self.db.connect() as conn:\n                result = await conn.execute(\n                    sa.select(self.EventTable).where(\n                        self.EventTable.c.id == bytes.fromhex(event_id)\n                    )\n                )\n                row = result.first()\n        finally:\n            self.query_slot.release()\n"),
 ]
+
+# functions whose syntactic mutants are used for the thorough tier's sensitivity figure (sa/automut.py)
+ANCHORS = [
+    "nostr_relay.web:start_client",
+    "nostr_relay.web:validate_message",
+    "nostr_relay.storage.base:NostrQuery.model_validate",
+    "nostr_relay.storage.db:DBStorage.run_query",
+]
